@@ -8,6 +8,7 @@ props/Cnn/check.py provides
 The parent process spawns `workers` worker processes (own proxy instance each); every worker runs
 Hypothesis with its own derived seed; results are merged into one evidence file.
 """
+from vlib.common import tier_params as common_tier_params
 import glob
 import importlib.util
 import json
@@ -87,7 +88,7 @@ def worker_main(pid, tier, seed, widx, outpath, replay=None):
     if os.environ.get("VERIF_PART_META"):
         with open(os.environ["VERIF_PART_META"]) as f:
             meta = json.load(f)
-    tp = meta["tiers"][tier]
+    tp = common_tier_params(meta, tier)
     nworkers = int(tp.get("workers", 1))
     known_open, _ = load_known(pid)
     known = set(known_open)
@@ -210,7 +211,7 @@ def run(pid, meta, tier, seed, replay=None, finish=True, module_file="check.py")
     out = Outcome(pid, tier, seed, meta)
     build.ensure_build()
     native.build_all()
-    tp = meta["tiers"][tier]
+    tp = common_tier_params(meta, tier)
     nworkers = 1 if replay else int(tp.get("workers", 1))
     workdir = os.path.join(RUN, pid)
     os.makedirs(workdir, exist_ok=True)
